@@ -32,7 +32,7 @@ func main() {
 	props := flag.String("props", "", "comma separated property ids; selects contracts tagged with them")
 	dump := flag.String("dump", "", "directory to dump SMT files of non-discharged obligations")
 	dumpAll := flag.Bool("dumpall", false, "dump every obligation")
-	workers := flag.Int("workers", 6, "parallel obligations")
+	workers := flag.Int("workers", 5, "parallel obligations")
 	both := flag.Bool("both", false, "require two solvers to agree where both terminate")
 	seed := flag.Int("seed", 0, "solver seed")
 	sweep := flag.Bool("sweep", false, "also verify selected functions without contract (safety obligations only)")
